@@ -1064,18 +1064,23 @@ class DiskRefsContainer(RefsContainer):
             with GitFile(path, "wb") as f:
                 # reread cached refs from disk, while holding the lock
                 packed_refs = self.get_packed_refs().copy()
+                peeled_refs = dict(self._peeled_refs or {})
 
                 for ref, target in new_refs.items():
                     # sanity check
                     if ref == HEADREF:
                         raise ValueError("cannot pack HEAD")
 
+                    if ref in packed_refs and packed_refs[ref] != target:
+                        # the peeled value on record belongs to the old value
+                        peeled_refs.pop(ref, None)
+
                     if target is not None:
                         packed_refs[ref] = target
                     else:
                         packed_refs.pop(ref, None)
 
-                write_packed_refs(f, packed_refs, self._peeled_refs)
+                write_packed_refs(f, packed_refs, peeled_refs)
 
             # Only once the new packed-refs file is in place, remove any
             # loose refs it supersedes (the other way round, a crash in
@@ -1523,6 +1528,7 @@ class DiskRefsContainer(RefsContainer):
                 # before we look, or have to wait for this lock (deletions)
                 # or are noticed when the loose ref is pruned below.
                 packed_refs = self.get_packed_refs().copy()
+                peeled_refs = dict(self._peeled_refs or {})
                 for ref in self._iter_loose_refs():
                     if not (all or ref.startswith(LOCAL_TAG_PREFIX)):
                         continue
@@ -1534,10 +1540,13 @@ class DiskRefsContainer(RefsContainer):
                     ):
                         # Gone, symbolic (those have to stay loose) or broken
                         continue
+                    if ref in packed_refs and packed_refs[ref] != value:
+                        # the peeled value on record belongs to the old value
+                        peeled_refs.pop(ref, None)
                     packed_refs[ref] = ObjectID(value)
                     to_prune[ref] = ObjectID(value)
                 if to_prune:
-                    write_packed_refs(f, packed_refs, self._peeled_refs)
+                    write_packed_refs(f, packed_refs, peeled_refs)
                     f.close()
             finally:
                 f.abort()
